@@ -463,39 +463,3 @@ view_get_small!(d2_repeat_of_slice_get, 10, { let (a, m) = any_range_n(3); let k
 view_get_small!(d2_reverse_of_repeat_get, 10, { let (a, m) = any_range_n(3); let k = any_reps(); (l1::Views::repeated(a, k).unwrap().reversed(), MRev(MRep(m, k))) });
 
 
-// ---------------------------------------------------------------------------------------------
-// std.removeAt
-// ---------------------------------------------------------------------------------------------
-/// `[arr[i] for i in 0..len if i != at]` (the documented definition)
-#[derive(Clone, Copy)]
-pub struct MRemoveAt<M>(M, i32);
-impl<M: Model> Model for MRemoveAt<M> {
-    fn len(&self) -> usize {
-        if self.1 >= 0 && (self.1 as usize) < self.0.len() {
-            self.0.len() - 1
-        } else {
-            self.0.len()
-        }
-    }
-    fn at(&self, i: usize) -> i64 {
-        if self.1 >= 0 && i >= self.1 as usize {
-            self.0.at(i + 1)
-        } else {
-            self.0.at(i)
-        }
-    }
-    #[cfg(verif_playback)]
-    fn jsonnet(&self) -> String {
-        format!("std.removeAt({}, {})", self.0.jsonnet(), self.1)
-    }
-}
-//@harness name=remove_at_len tier=thorough optional=1 timeout=7200 unwind=10 desc="std.removeAt(arr, at) = [arr[i] for i != at] for every i32 `at` (negative, in range, beyond the end, i32::MAX): len/is_empty" bounds="n<=3, at in -4..=5 or i32::MIN or i32::MAX"
-//@harness name=remove_at_inb tier=thorough optional=1 timeout=7200 unwind=10 desc="std.removeAt: elements" bounds="n<=3, at in -4..=5 or i32::MIN or i32::MAX"
-//@harness name=remove_at_oob tier=thorough optional=1 timeout=7200 unwind=10 desc="std.removeAt: out-of-bounds reads of the result" bounds="n<=3, at in -4..=5 or i32::MIN or i32::MAX"
-view_harnesses!(remove_at_len, remove_at_inb, remove_at_oob, 10, {
-    let (a, m) = any_range_n(3);
-    let at: i32 = kani::any();
-    kani::assume((at >= -4 && at <= 5) || at == i32::MAX || at == i32::MIN);
-    let r = crate::remove::builtin_remove_at(a, at);
-    (r.expect("removeAt of an array never fails"), MRemoveAt(m, at))
-});
